@@ -108,10 +108,9 @@ fn c06_k_operation_early_outs() {
 #[kani::unwind(8)]
 #[kani::stub(f64::hypot, hypot_model)]
 fn c06_k_zero_area_polygon_falls_back_to_outline() {
+    let c = |x: f64, y: f64| Coord { x, y };
     // right triangle (0,0) (3,0) (0,4): outline = sides 3, 5, 4 with midpoints (1.5,0) (1.5,2) (0,2)
-    let ring = || { let mut v = Vec::with_capacity(8); v.push(Coord { x: 0.0, y: 0.0 }); v.push(Coord { x: 3.0, y: 0.0 }); v.push(Coord { x: 0.0, y: 4.0 }); v.push(Coord { x: 0.0, y: 0.0 }); LineString(v) };
-    let mut holes = Vec::with_capacity(1); holes.push(ring());
-    let p = Polygon::new(ring(), holes);
+    let p = Polygon::new(LineString(vec![c(0., 0.), c(3., 0.), c(0., 4.), c(0., 0.)]), vec![LineString(vec![c(0., 0.), c(3., 0.), c(0., 4.), c(0., 0.)])]);
     let mut op = CentroidOperation::<f64>::new();
     op.add_polygon(&p);
     assert!(op.centroid_dimensions() == Dimensions::OneDimensional);
@@ -120,6 +119,28 @@ fn c06_k_zero_area_polygon_falls_back_to_outline() {
     // and a real areal member dominates it
     op.add_centroid(Dimensions::TwoDimensional, Coord { x: 7.0, y: 7.0 }, 2.0);
     assert!(op.centroid() == Some(Point(Coord { x: 7.0, y: 7.0 })));
+}
+
+/// scaling by a power of two is exact in floating point, so the centroid must scale EXACTLY with the geometry
+/// (C06 "moves with the geometry under uniform scaling", C13 commutation clause): polygon with an off-centre
+/// hole and a bare triangle ring, at scale 1 and 2^-28 (features ~1e-8 across)
+#[cfg(kani)]
+#[kani::proof]
+#[kani::unwind(8)]
+fn c06_k_centroid_scales_exactly_by_power_of_two() {
+    let k = 1.0 / 268435456.0;     // 2^-28
+    let c = |x: f64, y: f64| Coord { x, y };
+    let big = Polygon::new(LineString(vec![c(0., 0.), c(4., 0.), c(4., 4.), c(0., 4.), c(0., 0.)]),
+                           vec![LineString(vec![c(1., 1.), c(1., 2.), c(2., 2.), c(2., 1.), c(1., 1.)])]);
+    let small = Polygon::new(LineString(vec![c(0., 0.), c(4. * k, 0.), c(4. * k, 4. * k), c(0., 4. * k), c(0., 0.)]),
+                             vec![LineString(vec![c(k, k), c(k, 2. * k), c(2. * k, 2. * k), c(2. * k, k), c(k, k)])]);
+    let (cb, cs) = (big.centroid().unwrap(), small.centroid().unwrap());
+    assert!(cs.x() == cb.x() * k && cs.y() == cb.y() * k);
+    let tb = Polygon::new(LineString(vec![c(0., 0.), c(6., 0.), c(0., 3.), c(0., 0.)]), vec![]);
+    let ts = Polygon::new(LineString(vec![c(0., 0.), c(6. * k, 0.), c(0., 3. * k), c(0., 0.)]), vec![]);
+    let (cb, cs) = (tb.centroid().unwrap(), ts.centroid().unwrap());
+    assert!(cb.x() == 2.0 && cb.y() == 1.0);
+    assert!(cs.x() == 2.0 * k && cs.y() == 1.0 * k);
 }
 
 /// public API: centroid is None exactly for empty geometries
